@@ -11,6 +11,7 @@ register-to-register ALU operations, device reads and writes, `yield` / `sleep`,
     if c(a,b): S              b‹neg c› a b ELSE ; S ; ELSE: ; END:
     while c(a,b): S           LOOP: ; b‹neg c› a b END ; S ; j LOOP ; END:
     while True: S             LOOP: ; S ; j LOOP ; END:
+    break / continue          j END / j LOOP   (of the innermost enclosing loop)
 
 Jump targets are absolute line numbers (the labelled program with label lines counted).  No Mathlib: linked into `pvdrv`.
 -/
@@ -33,15 +34,25 @@ inductive Stmt (V : Type) where
   | ifThen (c neg : String) (a b : Opnd Reg V) (s : Stmt V)
   | while (c neg : String) (a b : Opnd Reg V) (body : Stmt V)
   | loop (body : Stmt V)
+  /-- `break` / `continue` of the innermost enclosing `while` / `loop` -/
+  | brk
+  | cont
 
 /-- source-level state: registers (one per variable / temporary) and the effects so far, newest first -/
 structure SSt (V : Type) where
   regs : Reg → V
   trace : List (Eff V)
 
+/-- how a statement ends: normally, by `break`, by `continue` -/
+inductive Exit where
+  | norm | brk | cont
+  deriving DecidableEq, Repr
+
 inductive Res (V : Type) where
-  | done (s : SSt V)
+  | ok (e : Exit) (s : SSt V)
   | timeout (s : SSt V)      -- out of fuel: the state reached so far (its trace is a prefix of the behaviour)
+
+@[match_pattern] abbrev Res.done {V : Type} (s : SSt V) : Res V := .ok .norm s
 
 section sem
 variable {V : Type} (sem : Sem V) (env : Env V)
@@ -56,10 +67,12 @@ def exec : Nat → Stmt V → SSt V → Res V
   | _, .yield, s => .done { s with trace := ⟨"yield", []⟩ :: s.trace }
   | _, .sleep a, s => .done { s with trace := ⟨"sleep", [a.eval s.regs]⟩ :: s.trace }
   | _, .skip, s => .done s
+  | _, .brk, s => .ok .brk s
+  | _, .cont, s => .ok .cont s
   | n, .seq p q, s =>
       match exec n p s with
-      | .done s' => exec n q s'
-      | .timeout s' => .timeout s'
+      | .ok .norm s' => exec n q s'
+      | r => r                                  -- `break` / `continue` / out of fuel: the rest is skipped
   | n, .ite c _ a b p q, s =>
       if sem.cond c [a.eval s.regs, b.eval s.regs] then exec n p s else exec n q s
   | n, .ifThen c _ a b p, s =>
@@ -68,13 +81,15 @@ def exec : Nat → Stmt V → SSt V → Res V
   | n + 1, .while c neg a b body, s =>
       if sem.cond c [a.eval s.regs, b.eval s.regs] then
         match exec (n + 1) body s with
-        | .done s' => exec n (.while c neg a b body) s'
+        | .ok .brk s' => .done s'
+        | .ok _ s' => exec n (.while c neg a b body) s'
         | .timeout s' => .timeout s'
       else .done s
   | 0, .loop _, s => .timeout s
   | n + 1, .loop body, s =>
       match exec (n + 1) body s with
-      | .done s' => exec n (.loop body) s'
+      | .ok .brk s' => .done s'
+      | .ok _ s' => exec n (.loop body) s'
       | .timeout s' => .timeout s'
 
 end sem
@@ -92,28 +107,33 @@ def size {V : Type} : Stmt V → Nat
   | .ifThen _ _ _ _ p => size p + 3
   | .while _ _ _ _ body => size body + 4
   | .loop body => size body + 3
+  | .brk => 1
+  | .cont => 1
 
 def nopI {V : Type} : Instr Reg V := ⟨.nop, none, []⟩
 
-/-- the model code generator; `base` = line number of the first emitted line; `lit n` = the operand that denotes line `n` -/
-def comp {V : Type} (lit : Nat → V) : Stmt V → Nat → List (Instr Reg V)
-  | .alu x op args, _ => [⟨.alu op, some x, args⟩]
-  | .load x q args, _ => [⟨.load q, some x, args⟩]
-  | .store q args, _ => [⟨.store q, none, args⟩]
-  | .yield, _ => [⟨.yield, none, []⟩]
-  | .sleep a, _ => [⟨.sleep, none, [a]⟩]
-  | .skip, _ => []
-  | .seq p q, base => comp lit p base ++ comp lit q (base + size p)
-  | .ite _ neg a b p q, base =>
-      [⟨.br neg, none, [a, b, .num (lit (base + size p + 2))]⟩] ++ comp lit p (base + 1) ++
-      [⟨.jmp, none, [.num (lit (base + size p + size q + 3))]⟩, nopI] ++ comp lit q (base + size p + 3) ++ [nopI]
-  | .ifThen _ neg a b p, base =>
-      [⟨.br neg, none, [a, b, .num (lit (base + size p + 1))]⟩] ++ comp lit p (base + 1) ++ [nopI, nopI]
-  | .while _ neg a b body, base =>
-      [nopI, ⟨.br neg, none, [a, b, .num (lit (base + size body + 3))]⟩] ++ comp lit body (base + 2) ++
+/-- the model code generator; `base` = line number of the first emitted line; `lit n` = the operand that denotes line `n`;
+    `cl` / `bl` = the lines `continue` / `break` jump to (start and end label of the innermost enclosing loop) -/
+def comp {V : Type} (lit : Nat → V) : Stmt V → Nat → Nat → Nat → List (Instr Reg V)
+  | .alu x op args, _, _, _ => [⟨.alu op, some x, args⟩]
+  | .load x q args, _, _, _ => [⟨.load q, some x, args⟩]
+  | .store q args, _, _, _ => [⟨.store q, none, args⟩]
+  | .yield, _, _, _ => [⟨.yield, none, []⟩]
+  | .sleep a, _, _, _ => [⟨.sleep, none, [a]⟩]
+  | .skip, _, _, _ => []
+  | .brk, _, _, bl => [⟨.jmp, none, [.num (lit bl)]⟩]
+  | .cont, _, cl, _ => [⟨.jmp, none, [.num (lit cl)]⟩]
+  | .seq p q, base, cl, bl => comp lit p base cl bl ++ comp lit q (base + size p) cl bl
+  | .ite _ neg a b p q, base, cl, bl =>
+      [⟨.br neg, none, [a, b, .num (lit (base + size p + 2))]⟩] ++ comp lit p (base + 1) cl bl ++
+      [⟨.jmp, none, [.num (lit (base + size p + size q + 3))]⟩, nopI] ++ comp lit q (base + size p + 3) cl bl ++ [nopI]
+  | .ifThen _ neg a b p, base, cl, bl =>
+      [⟨.br neg, none, [a, b, .num (lit (base + size p + 1))]⟩] ++ comp lit p (base + 1) cl bl ++ [nopI, nopI]
+  | .while _ neg a b body, base, _, _ =>
+      [nopI, ⟨.br neg, none, [a, b, .num (lit (base + size body + 3))]⟩] ++ comp lit body (base + 2) base (base + size body + 3) ++
       [⟨.jmp, none, [.num (lit base)]⟩, nopI]
-  | .loop body, base =>
-      [nopI] ++ comp lit body (base + 1) ++ [⟨.jmp, none, [.num (lit base)]⟩, nopI]
+  | .loop body, base, _, _ =>
+      [nopI] ++ comp lit body (base + 1) base (base + size body + 2) ++ [⟨.jmp, none, [.num (lit base)]⟩, nopI]
 
 /-- every branch of the program uses a suffix that negates its condition (on the two operands a branch compares) -/
 def NegOk {V : Type} (sem : Sem V) : Stmt V → Prop
